@@ -93,9 +93,10 @@ def unpublish (s : St) (h : String) : St :=
     { s with tunnels := ts, proxies := closeOutdated (· = h) s.proxies, router := buildRouter (· = h) ts s.router }
   else s
 
-/-- `handleIncomingDelegation` for an HTTP link (no lock taken): `router.Load(h)`; unknown →
+/-- the resolution step of `handleIncomingDelegation` for an HTTP link: `router.Load(h)`; unknown →
 not forwarded; else `proxies.LoadOrStoreLazy(h, newProxy(route))`. Result: the route of the proxy
-that serves the connection. -/
+that serves the connection. In the code as it is this runs under `configMu.RLock()`, i.e. never
+while a window is open (`stepLocked` below); before the fix it could run inside a window. -/
 def incoming (s : St) (h : String) : St × Option Route :=
   match s.router h with
   | none => (s, none)
@@ -122,5 +123,50 @@ def step (s : St) : Op → St
   | .incoming h => (incoming s h).1
 
 def run (s : St) (ops : List Op) : St := ops.foldl step s
+
+/-! ### schedules with connections arriving DURING a configuration change -/
+
+/-- one scheduled event: a configuration change together with the hostnames of the connections that
+arrive while it holds `configMu`, or a connection arriving while nothing is in progress.
+`reload` has two locked sections (`reloadFile`+`onReload`, then the `RebuildTunnels` of the sync). -/
+inductive Ev where
+  | rebuild (new : List Tunnel) (during : List String)
+  | reload (next : List Tunnel) (during1 during2 : List String)
+  | unpublish (h : String) (during : List String)
+  | arrive (h : String)
+deriving Repr
+
+/-- a resolved connection: hostname, route it is served with, route configured at that moment -/
+structure Served where
+  h : String
+  route : Option Route
+  want : Option Route
+deriving Repr
+
+def serveAll (s : St) : List String → St × List Served
+  | [] => (s, [])
+  | h :: hs =>
+    let r := incoming s h
+    let rest := serveAll r.1 hs
+    (rest.1, ⟨h, r.2, current s h⟩ :: rest.2)
+
+/-- LOCKED semantics = the code as it is (`handleIncomingDelegation` resolves under
+`configMu.RLock()`, every change holds `configMu.Lock()` from before `closeOutdatedProxies` until
+after `buildRouter`): connections that arrive during a change wait and are resolved right after it. -/
+def stepLocked (s : St) : Ev → St × List Served
+  | .rebuild new d => serveAll (rebuild s new) d
+  | .reload next d1 d2 =>
+    let a := serveAll (rebuild s next) d1
+    let b := serveAll (rebuild a.1 next) d2
+    (b.1, a.2 ++ b.2)
+  | .unpublish h d => serveAll (unpublish s h) d
+  | .arrive h => serveAll s [h]
+
+def runLocked (s : St) : List Ev → St × List Served
+  | [] => (s, [])
+  | e :: es =>
+    let a := stepLocked s e
+    let b := runLocked a.1 es
+    (b.1, a.2 ++ b.2)
 
 end Specter.C44
